@@ -1,7 +1,9 @@
 (* Proofs for C46 (engine XdsRoute). *)
 From Coq Require Import List ZArith Bool Lia.
 From VLib Require Import Codec Machine.
+From VModel Require Matchers.
 From VModel Require Import XdsRoute.
+From VProof Require Matchers_proofs.
 Import ListNotations.
 Open Scope Z_scope.
 
@@ -301,13 +303,64 @@ Proof.
   destruct (r_frac r); [rewrite Z.leb_le|]; intuition.
 Qed.
 
-Lemma path_match_spec : forall r method, r_ci r = false ->
-  (r_pkind r = 1 -> (path_match r method = true <-> method = r_path r)) /\
-  (r_pkind r <> 1 -> (path_match r method = true <-> exists rest, method = r_path r ++ rest)).
+Lemma path_match_spec : forall r method,
+  (r_pkind r = 2 -> (path_match r method = true <-> Matchers_proofs.lang (r_re r) method)) /\
+  (r_ci r = false -> r_pkind r = 1 -> (path_match r method = true <-> method = r_path r)) /\
+  (r_ci r = false -> r_pkind r <> 1 -> r_pkind r <> 2 ->
+     (path_match r method = true <-> exists rest, method = r_path r ++ rest)).
 Proof.
-  intros r method Hci. unfold path_match. rewrite Hci. split; intro Hk.
-  - rewrite Hk. simpl. rewrite str_eqb_spec. split; congruence.
-  - destruct (r_pkind r =? 1) eqn:E; [apply Z.eqb_eq in E; contradiction|]. apply prefixb_spec.
+  intros r method. unfold path_match. split; [|split].
+  - intro Hk. rewrite Hk. simpl. apply Matchers_proofs.rmatch_spec.
+  - intros Hci Hk. rewrite Hk, Hci. simpl. rewrite str_eqb_spec. split; congruence.
+  - intros Hci H1 H2. rewrite Hci.
+    destruct (r_pkind r =? 2) eqn:E2; [apply Z.eqb_eq in E2; contradiction|].
+    destruct (r_pkind r =? 1) eqn:E1; [apply Z.eqb_eq in E1; contradiction|]. apply prefixb_spec.
+Qed.
+
+(* the grouped map the C47 header matchers are evaluated on: key -> its values in order *)
+Lemma md_get_add : forall m k v k',
+  Matchers.md_get (Matchers.md_add m k v) k' =
+  if word_eqb k k' then Some (match Matchers.md_get m k with Some vs => vs ++ [v] | None => [v] end)
+  else Matchers.md_get m k'.
+Proof.
+  induction m as [|[k0 vs0] r IH]; intros k v k'; simpl; unfold Matchers.str_eqb.
+  - destruct (word_eqb k k'); reflexivity.
+  - destruct (word_eqb k0 k) eqn:E0; simpl; unfold Matchers.str_eqb.
+    + apply (str_eqb_spec k0 k) in E0. subst k0. destruct (word_eqb k k'); reflexivity.
+    + destruct (word_eqb k0 k') eqn:E1.
+      * apply (str_eqb_spec k0 k') in E1. subst k0. destruct (word_eqb k k') eqn:E2; [|reflexivity].
+        apply (str_eqb_spec k k') in E2. subst. pose proof (str_eqb_refl k') as Hr. unfold str_eqb in Hr. congruence.
+      * apply IH.
+Qed.
+
+Lemma vals_snoc : forall m k v k',
+  vals (m ++ [(k, v)]) k' = vals m k' ++ (if word_eqb k k' then [v] else []).
+Proof.
+  intros m k v k'. unfold vals, str_eqb. rewrite filter_app, map_app. simpl.
+  destruct (word_eqb k k'); reflexivity.
+Qed.
+
+Lemma to_mdt_get : forall m k,
+  Matchers.md_get (to_mdt m) k = match vals m k with [] => None | vs => Some vs end.
+Proof.
+  intro m. induction m as [|[k0 v0] m IH] using rev_ind; intro k; [reflexivity|].
+  unfold to_mdt. rewrite fold_left_app. simpl. fold (to_mdt m).
+  rewrite md_get_add, vals_snoc. destruct (word_eqb k0 k) eqn:E.
+  - apply (str_eqb_spec k0 k) in E. subst k0. rewrite IH. destruct (vals m k); reflexivity.
+  - rewrite IH, app_nil_r. reflexivity.
+Qed.
+
+(* composition with C47: e.g. the exact/prefix/suffix/contains header matchers of a route *)
+Lemma hdr_match_simple : forall h m, 1 <= h_kind h <= 4 ->
+  (hdr_match h m = true <->
+   vals m (h_name h) <> [] /\
+   (Matchers_proofs.cmpP (h_kind h) (h_arg h) (Matchers.join (vals m (h_name h))) <-> h_inv h = false)).
+Proof.
+  intros h m Hk. unfold hdr_match. destruct (h_kind h =? 11) eqn:E; [apply Z.eqb_eq in E; lia|].
+  rewrite Matchers_proofs.hdr_simple_spec by exact Hk. rewrite to_mdt_get. split.
+  - intros [vs [Hv Hx]]. destruct (vals m (h_name h)) as [|v0 r]; [discriminate|].
+    inversion Hv; subst. split; [discriminate | exact Hx].
+  - intros [Hne Hx]. destruct (vals m (h_name h)) as [|v0 r]; [contradiction|]. eauto.
 Qed.
 
 (* ---------------------------------------------------------------- fraction *)
@@ -429,12 +482,13 @@ Definition mix (h ph : Z) : Z := Z.lxor (rotl1 h) ph.
 
 Section HashP.
   Variable H : str -> Z.
+  Variable RW : str -> str -> str -> str.
 
   (* the hash contributed by one policy: None = the policy is a no-op for this RPC *)
   Definition pol_hash (chan : Z) (m em : md) (p : hpol) : option Z :=
     if p_chan p then Some chan else
     if suffixb dashbin (p_name p) then None else
-    match hash_values m em (p_name p) with [] => None | vs => Some (H (join vs)) end.
+    match hash_values m em (p_name p) with [] => None | vs => Some (H (rewrite RW p (join vs))) end.
 
   (* the policy hashes that are folded: up to and including the first terminal policy
      that produced a hash *)
@@ -448,7 +502,7 @@ Section HashP.
     end.
 
   Lemma gh_fold : forall ps chan m em hash gen,
-    gh H chan m em ps hash gen =
+    gh H RW chan m em ps hash gen =
     (fold_left mix (eff chan m em ps) hash, gen || negb (is_nil (eff chan m em ps))).
   Proof.
     induction ps as [|p r IH]; intros chan m em hash gen.
@@ -465,7 +519,7 @@ Section HashP.
   Qed.
 
   Lemma gen_hash_fold : forall chan m em ps,
-    gen_hash H chan m em ps = (fold_left mix (eff chan m em ps) 0, negb (is_nil (eff chan m em ps))).
+    gen_hash H RW chan m em ps = (fold_left mix (eff chan m em ps) 0, negb (is_nil (eff chan m em ps))).
   Proof. intros. unfold gen_hash. rewrite gh_fold. reflexivity. Qed.
 
   (* the hash depends on the RPC only through the values of the configured headers *)
@@ -486,13 +540,13 @@ Section HashP.
   Lemma gen_hash_inputs_only : forall ps chan m em m' em',
     (forall p, In p ps -> p_chan p = false -> suffixb dashbin (p_name p) = false ->
        hash_values m em (p_name p) = hash_values m' em' (p_name p)) ->
-    gen_hash H chan m em ps = gen_hash H chan m' em' ps.
+    gen_hash H RW chan m em ps = gen_hash H RW chan m' em' ps.
   Proof. intros. rewrite !gen_hash_fold. rewrite (eff_ext ps chan m em m' em'); auto. Qed.
 
   (* policies after a terminal policy that produced a hash are ignored *)
   Lemma gen_hash_terminal : forall pre p post chan m em,
     p_term p = true -> pol_hash chan m em p <> None ->
-    gen_hash H chan m em (pre ++ p :: post) = gen_hash H chan m em (pre ++ [p]).
+    gen_hash H RW chan m em (pre ++ p :: post) = gen_hash H RW chan m em (pre ++ [p]).
   Proof.
     intros pre p post chan m em Ht Hp. rewrite !gen_hash_fold.
     assert (He : eff chan m em (pre ++ p :: post) = eff chan m em (pre ++ [p])).
@@ -502,19 +556,34 @@ Section HashP.
         rewrite IH. reflexivity. }
     rewrite He. reflexivity.
   Qed.
+
+  (* note (not part of the statement): a policy that produces no hash for this RPC - a
+     "-bin" header, or a header absent from the RPC - is skipped entirely, even when it is
+     terminal and a hash has already been generated: it does not stop the fold *)
+  Lemma gen_hash_noop_policy : forall pre p post chan m em,
+    pol_hash chan m em p = None ->
+    gen_hash H RW chan m em (pre ++ p :: post) = gen_hash H RW chan m em (pre ++ post).
+  Proof.
+    intros pre p post chan m em Hp. rewrite !gen_hash_fold.
+    assert (He : eff chan m em (pre ++ p :: post) = eff chan m em (pre ++ post)).
+    { induction pre as [|q pre IH]; simpl.
+      - rewrite Hp. reflexivity.
+      - destruct (pol_hash chan m em q); [|exact IH]. destruct (p_term q); [reflexivity|].
+        rewrite IH. reflexivity. }
+    rewrite He. reflexivity.
+  Qed.
 End HashP.
 
 (* ---------------------------------------------------------------- bridge *)
 
-Lemma select_len5 : forall fm H chan rs m em ex method t w,
-  exists c i j g h, select_with fm H chan rs m em ex method t w = [c; i; j; g; h].
+Lemma select_shape : forall fm H RW chan rs m em ex method t w,
+  exists c i j g h tl, select_with fm H RW chan rs m em ex method t w = c :: i :: j :: g :: h :: tl.
 Proof.
   intros. unfold select_with.
-  destruct (first_match_from fm 0 rs method (match_md m em ex) t) as [[i r]|]; [|eauto 6].
-  destruct (negb (r_action r =? 1)); [eauto 6|].
-  destruct (wrr_pick (r_ws r) w); [|eauto 6].
-  destruct (gen_hash H chan m (if ex then em else []) (r_pols r)) as [h g].
-  destruct g; eauto 6.
+  destruct (first_match_from fm 0 rs method (match_md m em ex) t) as [[i r]|]; [|eauto 8].
+  destruct (negb (r_action r =? 1)); [eauto 8|].
+  destruct (gen_hash H RW chan m (if ex then em else []) (r_pols r)) as [h g].
+  destruct (r_plugin r); [destruct (wrr_pick (r_ws r) w); [|eauto 8]|]; destruct g; simpl; eauto 8.
 Qed.
 
 Definition okc (c : Z * Z * bool) : bool := is9 c || snd c.
@@ -522,7 +591,7 @@ Definition okc (c : Z * Z * bool) : bool := is9 c || snd c.
 Lemma clause_model_ok : forall chan s d,
   forallb okc (clause_op chan s d (snd (apply chan s d))) = true.
 Proof.
-  intros chan s d. destruct s as [rs vhs m em ex tb].
+  intros chan s d. destruct s as [rs vhs m em ex tb rw].
   destruct d; try reflexivity.
   - (* QVhost *) cbn [apply snd clause_op]. rewrite <- find_best_ref.
     destruct (find_best host vhs); unfold okc; cbn [forallb is9 fst snd]; rewrite Z.eqb_refl; reflexivity.
@@ -532,12 +601,16 @@ Proof.
     + apply Z.leb_le in E1. apply Z.ltb_ge in E2. lia.
     + apply Z.leb_gt in E1. apply Z.ltb_lt in E2. lia.
   - (* QSelect *) cbn [apply snd clause_op]. unfold select.
-    destruct (select_len5 frac_spec (tbl_get tb) (u64 chan) rs m em ex method t w)
-      as [c1 [i1 [j1 [g1 [h1 E1]]]]].
-    destruct (select_len5 frac_match (tbl_get tb) (u64 chan) rs m em ex method t w)
-      as [c2 [i2 [j2 [g2 [h2 E2]]]]].
-    rewrite E1, E2. unfold okc. cbn [forallb is9 fst snd]. rewrite !Z.eqb_refl. cbn [andb].
+    destruct (select_shape frac_spec (tbl_get tb) (rw_get rw) (u64 chan) rs m em ex method t w)
+      as [c1 [i1 [j1 [g1 [h1 [tl1 E1]]]]]].
+    destruct (select_shape frac_match (tbl_get tb) (rw_get rw) (u64 chan) rs m em ex method t w)
+      as [c2 [i2 [j2 [g2 [h2 [tl2 E2]]]]]].
+    rewrite E1, E2. unfold okc. cbn [forallb is9 fst snd]. rewrite !Z.eqb_refl.
+    pose proof (str_eqb_refl tl2) as Hr. unfold str_eqb in Hr. rewrite Hr. cbn [andb].
     rewrite !orb_true_r. reflexivity.
+  - (* QMatch *) cbn [apply snd clause_op]. unfold okc, route_match. cbn [forallb is9 fst snd].
+    pose proof (str_eqb_refl (map (fun r => b2z (route_match_with frac_match r method m t)) rs)) as Hr.
+    unfold str_eqb in Hr. rewrite Hr. rewrite orb_true_r. reflexivity.
 Qed.
 
 Lemma forallb_filter : forall (A : Type) (p q : A -> bool) l,
@@ -578,41 +651,59 @@ Proof. vm_compute. split; reflexivity. Qed.
 
 (* ---------------------------------------------------------------- SelectConfig *)
 
-Lemma select_ok_spec : forall H chan rs m em ex method t w i j g h,
-  select H chan rs m em ex method t w = [0; i; j; g; h] ->
+Lemma select_ok_spec : forall H RW chan rs m em ex method t w i j g h tail,
+  select H RW chan rs m em ex method t w = 0 :: i :: j :: g :: h :: tail ->
   exists pre r post, rs = pre ++ r :: post /\ i = Z.of_nat (length pre) /\
     route_match r method (match_md m em ex) t = true /\
     (forall r', In r' pre -> route_match r' method (match_md m em ex) t = false) /\
-    r_action r = 1 /\ wrr_pick (r_ws r) w = Some j /\
-    g = b2z (snd (gen_hash H chan m (if ex then em else []) (r_pols r))) /\
-    (g = 1 -> h = i64 (fst (gen_hash H chan m (if ex then em else []) (r_pols r)))).
+    r_action r = 1 /\
+    ((r_plugin r = [] /\ wrr_pick (r_ws r) w = Some j /\ tail = []) \/
+     (r_plugin r <> [] /\ j = -1 /\ tail = put_bytes (r_plugin r))) /\
+    g = b2z (snd (gen_hash H RW chan m (if ex then em else []) (r_pols r))) /\
+    (g = 1 -> h = i64 (fst (gen_hash H RW chan m (if ex then em else []) (r_pols r)))).
 Proof.
-  intros H chan rs m em ex method t w i j g h. unfold select, select_with.
+  intros H RW chan rs m em ex method t w i j g h tail. unfold select, select_with.
   pose proof (first_match_spec frac_match rs 0 method (match_md m em ex) t) as Hfm.
   destruct (first_match_from frac_match 0 rs method (match_md m em ex) t) as [[i0 r]|]; [|discriminate].
   destruct Hfm as [pre [post [Hrs [Hi [Hm Hpre]]]]].
-  destruct (r_action r =? 1) eqn:Ea; [|discriminate]. cbn [negb].
-  destruct (wrr_pick (r_ws r) w) as [j0|] eqn:Ew; [|discriminate].
-  destruct (gen_hash H chan m (if ex then em else []) (r_pols r)) as [hh gg] eqn:Eg.
-  intro Heq. exists pre, r, post. apply Z.eqb_eq in Ea.
-  destruct gg; inversion Heq; subst; rewrite Eg; cbn [fst snd b2z].
-  - repeat split; auto; lia.
-  - repeat split; auto; lia.
+  destruct (r_action r =? 1) eqn:Ea; [|discriminate]. cbn [negb]. apply Z.eqb_eq in Ea.
+  destruct (gen_hash H RW chan m (if ex then em else []) (r_pols r)) as [hh gg] eqn:Eg.
+  assert (Hfin : forall jj tt, 
+     ((r_plugin r = [] /\ wrr_pick (r_ws r) w = Some jj /\ tt = []) \/
+      (r_plugin r <> [] /\ jj = -1 /\ tt = put_bytes (r_plugin r))) ->
+     (if gg then [0; i0; jj; 1; i64 hh] else [0; i0; jj; 0; 0]) ++ tt = 0 :: i :: j :: g :: h :: tail ->
+     exists pre0 r0 post0, rs = pre0 ++ r0 :: post0 /\ i = Z.of_nat (length pre0) /\
+       route_match r0 method (match_md m em ex) t = true /\
+       (forall r', In r' pre0 -> route_match r' method (match_md m em ex) t = false) /\
+       r_action r0 = 1 /\
+       ((r_plugin r0 = [] /\ wrr_pick (r_ws r0) w = Some j /\ tail = []) \/
+        (r_plugin r0 <> [] /\ j = -1 /\ tail = put_bytes (r_plugin r0))) /\
+       g = b2z (snd (gen_hash H RW chan m (if ex then em else []) (r_pols r0))) /\
+       (g = 1 -> h = i64 (fst (gen_hash H RW chan m (if ex then em else []) (r_pols r0))))).
+  { intros jj tt Hpick Heq. exists pre, r, post. rewrite Eg. cbn [fst snd].
+    destruct gg; cbn [app] in Heq; inversion Heq; subst; cbn [b2z].
+    - split; [reflexivity|]. split; [lia|]. split; [exact Hm|]. split; [exact Hpre|]. split; [exact Ea|].
+      split; [exact Hpick|]. split; [reflexivity | intros _; reflexivity].
+    - split; [reflexivity|]. split; [lia|]. split; [exact Hm|]. split; [exact Hpre|]. split; [exact Ea|].
+      split; [exact Hpick|]. split; [reflexivity | intro Hx; discriminate]. }
+  destruct (r_plugin r) as [|c0 nm] eqn:Ep.
+  - destruct (wrr_pick (r_ws r) w) as [j0|] eqn:Ew; [|discriminate].
+    intro Heq. apply (Hfin j0 []); [left; auto | exact Heq].
+  - intro Heq. apply (Hfin (-1) (put_bytes (c0 :: nm))); [right; repeat split; auto; discriminate | exact Heq].
 Qed.
 
-Lemma select_none_spec : forall H chan rs m em ex method t w,
+Lemma select_none_spec : forall H RW chan rs m em ex method t w,
   (forall r, In r rs -> route_match r method (match_md m em ex) t = false) <->
-  select H chan rs m em ex method t w = [1; 0; 0; 0; 0].
+  select H RW chan rs m em ex method t w = [1; 0; 0; 0; 0].
 Proof.
-  intros H chan rs m em ex method t w. unfold select, select_with.
+  intros H RW chan rs m em ex method t w. unfold select, select_with.
   pose proof (first_match_spec frac_match rs 0 method (match_md m em ex) t) as Hfm.
   destruct (first_match_from frac_match 0 rs method (match_md m em ex) t) as [[i0 r]|].
   - destruct Hfm as [pre [post [Hrs [Hi [Hm Hpre]]]]]. split.
     + intro Hall. unfold route_match in Hall. rewrite (Hall r) in Hm; [discriminate|].
       rewrite Hrs. apply in_or_app. right. left. reflexivity.
     + destruct (negb (r_action r =? 1)); [discriminate|].
-      destruct (wrr_pick (r_ws r) w); [|discriminate].
-      destruct (gen_hash H chan m (if ex then em else []) (r_pols r)) as [hh gg].
-      destruct gg; discriminate.
+      destruct (gen_hash H RW chan m (if ex then em else []) (r_pols r)) as [hh gg].
+      destruct (r_plugin r); [destruct (wrr_pick (r_ws r) w); [|discriminate]|]; destruct gg; discriminate.
   - split; [reflexivity | intros _; exact Hfm].
 Qed.
